@@ -81,6 +81,11 @@ def run_job(job):
         res["status"] = "timeout"
         res["reason"] = "cbmc timeout after %ss" % spec.timeout
         return res
+    if rc not in (0, 10):
+        # cbmc exits 0 (all proved) or 10 (some property failed); anything else is a crash / out of memory / usage error
+        res["status"] = "error"
+        res["reason"] = "cbmc terminated abnormally (exit status %s; memory limit 12 GB): %s" % (rc, (se[-600:] or so[-600:]))
+        return res
     try:
         msgs = json.loads(so)
     except Exception as ex:
